@@ -374,6 +374,11 @@ class World:
                     price = price_str(units, scale, rng)
                     g = 10 ** scale
                     size = g * rng.randint(1, max(1, m // g)) if m >= g else size
+        if rng.random() < 0.04 and parse_dec(price) is not None:
+            # the limit price written with 30 decimals whose last digits the parser rounds away
+            w_, _, f_ = price.lstrip("+").partition(".")
+            if len(f_) <= 28 and w_.isdigit():
+                price = w_ + "." + f_.ljust(28, "0") + rng.choice(["04", "4", "001", "49"])
         sender = rng.choice(c.executors) if c.executors else rng.choice(self.accounts)
         return dict(kind="execute_match", sender=sender, ask_id=a.key, bid_id=b.key, price=price, size=size,
                     funds=[])
